@@ -76,6 +76,8 @@ pub enum ManifestOperation {
 pub struct Manifest {
     file: Option<tokio::fs::File>,
     enable_fsync: bool,
+    #[cfg(feature = "verif")]
+    verif_path: std::path::PathBuf,
 }
 
 impl Manifest {
@@ -84,6 +86,8 @@ impl Manifest {
         Self {
             file: None,
             enable_fsync: false,
+            #[cfg(feature = "verif")]
+            verif_path: Default::default(),
         }
     }
 
@@ -94,9 +98,13 @@ impl Manifest {
             .create(true)
             .open(path.as_ref())
             .await?;
+        #[cfg(feature = "verif")]
+        crate::verif::crash_point("manifest.opened", path.as_ref(), None);
         Ok(Self {
             file: Some(file),
             enable_fsync,
+            #[cfg(feature = "verif")]
+            verif_path: path.as_ref().to_path_buf(),
         })
     }
 
@@ -112,6 +120,10 @@ impl Manifest {
             // Seek to end directly as the compacted manifest won't be replayed.
             file.seek(SeekFrom::End(0)).await?;
             self.file = Some(file);
+            #[cfg(feature = "verif")]
+            {
+                self.verif_path = path.as_ref().to_path_buf();
+            }
         }
 
         Ok(())
@@ -175,10 +187,14 @@ impl Manifest {
             serde_json::to_writer(&mut json, entry)?;
         }
         serde_json::to_writer(&mut json, &ManifestOperation::End)?;
+        #[cfg(feature = "verif")]
+        crate::verif::crash_point("manifest.append.write", &self.verif_path, Some(&json));
         file.write_all(&json).await?;
         if self.enable_fsync {
             file.sync_data().await?;
         }
+        #[cfg(feature = "verif")]
+        crate::verif::crash_point("manifest.append.synced", &self.verif_path, None);
         Ok(())
     }
 }
